@@ -15,6 +15,8 @@ history) and the monitor; the invariant across consolidation is not yet a theore
 -/
 import BRV.Proofs.Longest
 import BRV.Proofs.RepoWF
+import BRV.Proofs.RepoWork
+import BRV.Proofs.RepoExample
 
 namespace BRV.Repo
 
@@ -384,6 +386,51 @@ theorem C01_headerAt_in_memory (r : Repo) (k : Int) (d : HData) (hk : k ≤ (r.b
   have : ¬ (k > (r.br r.longest).height) := by omega
   simp only [this, ↓reduceIte, hd]
 
+/-! ### accumulated work is cumulative work; the tip dominates every held header -/
+
+/-- **C01 (the reported work is cumulative work).** In every state reached by submissions, along the
+    ancestry of any branch (in particular the reported chain) the accumulated work recorded at height
+    `k` is the one recorded at `k − 1` plus the block work of the header at `k`, which is at least 1:
+    `AccumulatedWork` is the sum of the block works from genesis, strictly increasing with height. -/
+theorem C01_work_is_cumulative (r : Repo) (hs : List (Hdr × Bool)) (hw : LinkWF r.arena) (hwk : WorkWF r.arena)
+    (hq : NoAutoClean r hs) (bi : Nat) (k : Int) (a b : HData)
+    (ha : (submitAll r hs).at bi k = some a) (hb : (submitAll r hs).at bi (k - 1) = some b) :
+    ∃ w, Work.blockWork a.hdr.bits = some w ∧ a.work = b.work + w ∧ 1 ≤ w := by
+  have hw' := linkWF_submitAll r hs hw hq
+  have hwk' := workWF_submitAll r hs hw hwk hq
+  have hlen : bi < (submitAll r hs).arena.length := atHeight_some_lt _ _ _ _ _ ha
+  rw [Repo.at_eq_atH _ hw'.dec _ hlen] at ha hb
+  exact atH_work_step _ hw' hwk' bi k a b ha hb
+
+/-- **C01 (maximal among ALL held headers, not only tips).** When the tip is maximal among the branch
+    tips and the work bookkeeping is exact, no header held by any tracked branch carries more
+    accumulated work than the reported tip. -/
+theorem C01_tip_dominates_every_header (r : Repo) (hmax : TipMax r) (hwk : WorkWF r.arena)
+    (hi : IdWF r.arena r.branches) (bi : Nat) (b : Branch) (k : Nat) (d : HData)
+    (hb : r.arena[bi]? = some b) (hk : b.headers[k]? = some d) :
+    ∃ wl, lastWork r.arena r.longest = some wl ∧ d.work ≤ wl := by
+  obtain ⟨_, wl, hwl, hall⟩ := hmax
+  refine ⟨wl, hwl, ?_⟩
+  have hmem := hi.listed bi (getElem?_lt _ _ _ hb)
+  obtain ⟨w, hlw, hle⟩ := hall bi hmem
+  unfold lastWork at hlw
+  rw [hb] at hlw
+  simp only [Option.bind_some, Option.map_eq_some_iff] at hlw
+  obtain ⟨l, hl, hlwk⟩ := hlw
+  have := work_le_tip r.arena hwk bi b hb k d l hk hl
+  omega
+
+/-- **C01 (submission histories, all held headers).** After ANY finite history of submissions from
+    a well-formed state with a maximal tip (e.g. genesis only), every header any tracked branch holds
+    has accumulated work at most the reported `AccumulatedWork`. -/
+theorem C01_tip_dominates_submissions (r : Repo) (hs : List (Hdr × Bool)) (h0 : TipMax r) (hwf : RepoWF r)
+    (hwk : WorkWF r.arena) (hq : Quiet r hs) (hq' : NoAutoClean r hs)
+    (bi : Nat) (b : Branch) (k : Nat) (d : HData)
+    (hb : (submitAll r hs).arena[bi]? = some b) (hk : b.headers[k]? = some d) :
+    ∃ wl, lastWork (submitAll r hs).arena (submitAll r hs).longest = some wl ∧ d.work ≤ wl :=
+  C01_tip_dominates_every_header _ (C01_tip_maximal_submissions r hs h0 hq)
+    (workWF_submitAll r hs hwf.link hwk hq') (repoWF_submitAll r hs hwf hq').ids bi b k d hb hk
+
 /-! ### the extracted shapes the model relies on -/
 
 /-- `ProcessHeader` and every reader hold the repository mutex for their whole body, so concurrent
@@ -440,5 +487,18 @@ example : TipMax (processHeader exRepoC01 { id := 1, prev := 0, bits := 0x1d00ff
     rw [this] at hb; simpa using hb
   subst this
   exact ⟨8590065666, by decide, Nat.le_refl _⟩
+
+/-- the genesis-only repository has exact work bookkeeping (hypothesis of the work theorems). -/
+theorem genesis_workWF : WorkWF genesisRepo.arena := by
+  intro bi b hb
+  obtain ⟨rfl, rfl⟩ := genesisRepo_get bi b hb
+  refine ⟨?_, ?_, ?_⟩
+  · intro k d e hk hk1; simp [genesisRepo] at hk1
+  · intro p d hpar; simp [genesisRepo] at hpar
+  · intro d _ h0
+    simp only [genesisRepo, List.getElem_cons_zero, List.getElem?_cons_zero, Option.some.injEq] at h0
+    subst h0; decide
+
+example : exRepoC01 = genesisRepo := rfl
 
 end BRV.Repo
